@@ -17,6 +17,8 @@ def padVal (pf : PField) (v : Val) : Val :=
     match v with
     | .us xs => .us (some (xs.getD [] ++
         List.replicate (pf.length - (xs.getD []).length) (Base.invalidNat (tcBase pf.tcode))))
+    | .is zs => .is (some (zs.getD [] ++
+        List.replicate (pf.length - (zs.getD []).length) ((Base.invalidNat (tcBase pf.tcode) : Nat) : Int)))
     | v => v
   else v
 
